@@ -28,9 +28,169 @@ GEN_TARGETS = ["MenpoModel.Generated.C05Src", "MenpoModel.Generated.C05Sync", "M
                "MenpoModel.GenProps.C05Src", "MenpoModel.GenProps.C05SrcAsm", "MenpoModel.GenProps.C05SrcDt"]
 
 
+class _Normalise(ast.NodeTransformer):
+    """source-level normal forms (behaviour preserving, independent of any property):
+         if X is None: X = E          ->  X = E if X is None else X
+       (an optional parameter replaced by its default: the conditional expression is what the rules know)"""
+
+    def visit_If(self, node):
+        self.generic_visit(node)
+        t = node.test
+        if (not node.orelse and len(node.body) == 1 and isinstance(node.body[0], ast.Assign)
+                and len(node.body[0].targets) == 1 and isinstance(node.body[0].targets[0], ast.Name)
+                and isinstance(t, ast.Compare) and len(t.ops) == 1 and isinstance(t.ops[0], ast.Is)
+                and isinstance(t.left, ast.Name) and t.left.id == node.body[0].targets[0].id
+                and isinstance(t.comparators[0], ast.Constant) and t.comparators[0].value is None):
+            x = t.left.id
+            return ast.copy_location(ast.Assign(
+                targets=[ast.Name(id=x, ctx=ast.Store())],
+                value=ast.IfExp(test=t, body=node.body[0].value, orelse=ast.Name(id=x, ctx=ast.Load()))), node)
+        return node
+
+
+def _inline_self_aliases(node):
+    """`x = self.attr` (a bare reference to an attribute of the receiver, no copy) followed by uses of `x`: the local is
+    an ALIAS of the attribute — reads and in-place writes through it are reads and writes of `self.attr`.  The alias is
+    replaced by `self.attr` everywhere after its definition when that is obviously sound: `x` is bound exactly once, at
+    the top level of the body, and no later statement rebinds an attribute of `self` or calls a method on `self` (which
+    might).  Otherwise the function is left alone (the plain translation still reads `x` as a value)."""
+    body = node.body
+
+    def is_self_attr(e):
+        return isinstance(e, ast.Attribute) and isinstance(e.value, ast.Name) and e.value.id == "self"
+
+    for i, st in enumerate(body):
+        if not (isinstance(st, ast.Assign) and len(st.targets) == 1 and isinstance(st.targets[0], ast.Name)
+                and is_self_attr(st.value)):
+            continue
+        x = st.targets[0].id
+        stores = [n for n in ast.walk(node) if isinstance(n, ast.Name) and n.id == x and isinstance(n.ctx, (ast.Store, ast.Del))]
+        if len(stores) != 1 or x in [a.arg for a in node.args.args]:
+            continue
+        rest = body[i + 1:]
+        unsafe = False
+        for n in (m for r in rest for m in ast.walk(r)):
+            if isinstance(n, (ast.Assign, ast.AugAssign)):
+                tg = n.targets if isinstance(n, ast.Assign) else [n.target]
+                if any(is_self_attr(t) for t in tg):
+                    unsafe = True
+            if isinstance(n, ast.Call) and is_self_attr(n.func):
+                unsafe = True
+        if unsafe:
+            continue
+
+        class Sub(ast.NodeTransformer):
+            def visit_Name(self, n):
+                if n.id == x and isinstance(n.ctx, ast.Load):
+                    return ast.copy_location(ast.Attribute(value=ast.Name(id="self", ctx=ast.Load()), attr=st.value.attr,
+                                                           ctx=ast.Load()), n)
+                return n
+        node.body = body[:i] + [Sub().visit(r) for r in rest]
+        return _inline_self_aliases(node)
+    return node
+
+
+def _inline_pure_locals(node, may_raise):
+    """`x = E` with E a pure, total expression and `x` a single-assignment, read-only local: every later read of `x` is
+    replaced by E and the assignment is dropped, so that a hoisted temporary and the nested expression it was hoisted out
+    of translate to the same term (and rules about nested expressions keep matching).  Conditions (all syntactic, all
+    conservative): `x` is bound exactly once in the function and is not a parameter; it is never the base of a subscript /
+    attribute store, an augmented assignment or an argument of a statement-level call (it is not mutated in place);
+    every read of `x` is in the statements that follow the assignment in the same block; no name occurring in E is bound
+    more than once (or is a parameter that is re-bound); E does not mention `self` unless no later statement of the
+    function writes to `self` (attribute / subscript stores on it, statement-level calls on it or with it);
+    `may_raise(E)` is false (an expression that can raise keeps its place)."""
+    params = {a.arg for a in node.args.posonlyargs + node.args.args + node.args.kwonlyargs}
+    stores = {}
+    for n in ast.walk(node):
+        if isinstance(n, ast.Name) and isinstance(n.ctx, (ast.Store, ast.Del)):
+            stores[n.id] = stores.get(n.id, 0) + 1
+    for a in params:
+        stores[a] = stores.get(a, 0) + 1
+
+    def root(e):
+        while isinstance(e, (ast.Attribute, ast.Subscript)):
+            e = e.value
+        return e.id if isinstance(e, ast.Name) else None
+
+    mutated = set()
+    for n in ast.walk(node):
+        tg = []
+        if isinstance(n, ast.Assign):
+            tg = n.targets
+        elif isinstance(n, (ast.AugAssign, ast.AnnAssign)):
+            tg = [n.target]
+        for t in tg:
+            for e in (t.elts if isinstance(t, (ast.Tuple, ast.List)) else [t]):
+                if isinstance(e, (ast.Attribute, ast.Subscript)) or isinstance(n, ast.AugAssign):
+                    mutated.add(root(e))
+        if isinstance(n, ast.Expr) and isinstance(n.value, ast.Call):
+            c = n.value
+            mutated.add(root(c.func))
+            for a in list(c.args) + [k.value for k in c.keywords]:
+                mutated.add(root(a))
+
+    def loads(stmts, x):
+        return sum(1 for st in stmts for n in ast.walk(st) if isinstance(n, ast.Name) and n.id == x and isinstance(n.ctx, ast.Load))
+
+    total_loads = lambda x: loads(node.body, x)
+
+    def do_block(stmts):
+        out, i = [], 0
+        stmts = list(stmts)
+        while i < len(stmts):
+            st = stmts[i]
+            if (isinstance(st, ast.Assign) and len(st.targets) == 1 and isinstance(st.targets[0], ast.Name)):
+                x, E = st.targets[0].id, st.value
+                names = {n.id for n in ast.walk(E) if isinstance(n, ast.Name)}
+                ok = (stores.get(x, 0) == 1 and x not in mutated and x not in names
+                      and all(stores.get(nm, 0) <= 1 for nm in names)
+                      and not ("self" in names and "self" in mutated)
+                      and not any(nm in mutated for nm in names if nm != "self")
+                      and not isinstance(E, (ast.Lambda, ast.ListComp, ast.GeneratorExp, ast.Yield, ast.Await))
+                      and not may_raise(E)
+                      and loads(stmts[i + 1:], x) == total_loads(x))
+                if ok:
+                    class Sub(ast.NodeTransformer):
+                        def visit_Name(self, n):
+                            if n.id == x and isinstance(n.ctx, ast.Load):
+                                import copy as _c
+                                return ast.copy_location(_c.deepcopy(E), n)
+                            return n
+                    stmts = stmts[:i] + [Sub().visit(r) for r in stmts[i + 1:]]
+                    continue
+            for f in ("body", "orelse"):
+                if isinstance(st, (ast.If, ast.For, ast.While)) and getattr(st, f, None):
+                    setattr(st, f, do_block(getattr(st, f)))
+            out.append(st)
+            i += 1
+        return stmts
+
+    node.body = do_block(node.body) or [ast.Pass()]
+    return node
+
+
 class T5(P.Translator2W):
     """Translator2W + float constants as exact rationals (generic; a rule cannot do it because `1 == 1.0 == True` for
     the structural matcher)"""
+
+    def function_node(self, node, arg_names, ind=2, allow_unused=()):
+        import copy as _copy
+        node = _inline_self_aliases(_Normalise().visit(_copy.deepcopy(node)))
+        node = _inline_pure_locals(node, self._may_raise_expr)
+        ast.fix_missing_locations(node)
+        return P.Translator2W.function_node(self, node, arg_names, ind, allow_unused)
+
+    def _may_raise_expr(self, e):
+        """does a rule flagged "bind" translate a sub-expression of `e` (an operation that can raise)?"""
+        for n in ast.walk(e):
+            if isinstance(n, ast.expr):
+                for pat, _t, flag in self.r.expr:
+                    if P.match(pat, n, {}):
+                        if flag == "bind":
+                            return True
+                        break
+        return False
 
     def expr(self, node, scope):
         if isinstance(node, ast.Constant) and type(node.value) is float:
@@ -94,7 +254,6 @@ XF_EXPR = [
     ("new_target.n_points", "(Np.cloudPoints newtarget)"),
     ("$s.n_dims", "(Homogeneous_n_dims {s})"),
     ("$s.scale.size", "(Np.shape0 (NonUniformScale_scale {s}))"),
-    ("np.array([$s.scale])", "[UniformScale_scale {s}]"),
     ("$s.scale", "(NonUniformScale_scale {s})"),
     # numpy
     ("$v.reshape($m.shape)", "(Np.reshapeLike {v} {m})", "bind"),
@@ -224,7 +383,8 @@ def xf_items():
     # ---- UniformScale / NonUniformScale
     add("def UniformScale_scale (self : Xf) : Rat :=", "0", mt.UniformScale, "scale", S, ret="{e}")
     add("def UniformScale_n_parameters (self : Xf) : Except Err Nat :=", ".error .other", mt.UniformScale, "n_parameters", S)
-    add("def UniformScale__as_vector (self : Xf) : Except Err Vec :=", ".error .other", mt.UniformScale, "_as_vector", S)
+    add("def UniformScale__as_vector (self : Xf) : Except Err Vec :=", ".error .other", mt.UniformScale, "_as_vector", S,
+        extra_expr=[("$s.scale", "(UniformScale_scale {s})")])
     add("def UniformScale__from_vector_inplace (self : Xf) (p : Vec) : Except Err Xf :=", ".error .other",
         mt.UniformScale, "_from_vector_inplace", {"self": "self", "p": "p"})
     add("def NonUniformScale_scale (self : Xf) : Vec :=", "[]", mt.NonUniformScale, "scale", S, ret="{e}")
@@ -357,12 +517,12 @@ IMG_EXPR = [
     ("hasattr($s, 'path')", "false"),
     ("copy_landmarks_and_path($s, $t)", "(copy_landmarks_and_path {s} {t})"),
     ("$a if $n is None else $n", "(Option.getD {n} {a})"),
-    ("$s.mask.all_true()", "(allTrue ({s}).mask)"),
-    ("$s.masked_pixels().reshape([$s.n_channels, -1])", "(Np.Arr.rows (MaskedImage_masked_pixels {s}))"),
-    ("$s.masked_pixels().ravel()", "(Np.Arr.flat (List.flatten (MaskedImage_masked_pixels {s})))"),
-    ("$s.pixels.reshape([$s.n_channels, -1])", "(Np.Arr.rows ({s}).chans)"),
-    ("$s.pixels.ravel()", "(Np.Arr.flat (List.flatten ({s}).chans))"),
-    ("$s.pixels[..., $s.mask.mask]", "(List.map (fun c => maskFilter c ({s}).mask) ({s}).chans)"),
+    ("$m.all_true()", "(allTrue {m})"),
+    ("$s.masked_pixels()", "(MaskedImage_masked_pixels {s})"),
+    ("$m.reshape([$s.n_channels, -1])", "(Np.Arr.rows {m})"),
+    ("$m.ravel()", "(Np.Arr.flat (List.flatten {m}))"),
+    ("$s.pixels[..., $m]", "(List.map (fun c => maskFilter c {m}) ({s}).chans)"),
+    ("$x.mask", "(Np.HasMask.mask {x})"),
     ("$s.pixels.shape[0]", "(Np.shape0 ({s}).chans)"),
     ("$s.pixels.shape[1:]", "({s}).shape"),
     ("$v.reshape($s.pixels.shape)", "(Np.reshapeImg {v} (Image_n_channels {s}) (Image_shape {s}))", "bind"),
@@ -374,7 +534,7 @@ IMG_EXPR = [
     ("$a.flags.c_contiguous", "contig"),
     ("$a.copy()", "{a}"),
     ("Image($d, copy=$c)", "(Np.mkImage {d})"),
-    ("MaskedImage($d, mask=$s.mask)", "(Np.mkMasked {d} ({s}).mask)"),
+    ("MaskedImage($d, mask=$m)", "(Np.mkMasked {d} {m})"),
     ("BooleanImage($d, copy=$c)", "(Np.mkBoolean {d})"),
     ("$s.pixels", "({s}).chans"),
     ("$s.n_channels", "(Image_n_channels {s})"),
@@ -383,11 +543,11 @@ IMG_EXPR = [
 IMG_STMT = [
     ("$s._set_masked_pixels($p, copy=$c)", "s", "(v__set_masked_pixels {s} {p} {c})", "bind"),
     ("$n.landmarks = $s.landmarks", "n", "{{ {n} with lms := ({s}).lms }}"),
-    ("$s.pixels[..., $s.mask.mask] = $p", "s",
-     "(Except.map (fun d => {{ {s} with shape := d.shape, chans := d.chans }}) (Np.assignMasked (Np.pixelsOf {s}) ({s}).mask {p}))",
+    ("$s.pixels[..., $m] = $p", "s",
+     "(Except.map (fun d => {{ {s} with shape := d.shape, chans := d.chans }}) (Np.assignMasked (Np.pixelsOf {s}) {m} {p}))",
      "bind"),
     ("$s.pixels = $d", "s", "{{ {s} with shape := ({d}).shape, chans := ({d}).chans }}"),
-    ("$d[..., $s.mask.mask] = $p", "d", "(Np.assignMasked {d} ({s}).mask {p})", "bind"),
+    ("$d[..., $m] = $p", "d", "(Np.assignMasked {d} {m} {p})", "bind"),
 ]
 
 
@@ -477,7 +637,7 @@ class T5D(T5):
         return T5._block1(self, stmts, scope, ind, ctx)
 
 
-D_KEEP = [P._pat("$s.mask.all_true()", "expr"), P._pat("copy", "expr"), P._pat("keep_channels", "expr")]
+D_KEEP = [P._pat("$m.all_true()", "expr"), P._pat("copy", "expr"), P._pat("keep_channels", "expr")]
 
 
 class _Guards(ast.NodeTransformer):
@@ -505,10 +665,16 @@ class _Guards(ast.NodeTransformer):
 
 D_EXPR = [
     ("__guard($k)", "(g {k})"),
-    ("$s.mask.all_true()", "full"),
+    ("$_m.all_true()", "full"),
+    ("$_s.mask", "()"),
     ("$_a if $_n is None else $_n", "()"),
     ("$_m.shape", "()"),
     ("$_s.n_dims", "()"),
+    ("$_x.size", "()"),
+    ("$_x.n_channels", "()"),
+    ("$_x.n_points", "()"),
+    ("len($_x)", "()"),
+    ("np.size($_x)", "()"),
     ("copy_landmarks_and_path($_s, $t)", "{t}"),
     ("$s.masked_pixels()", "(MaskedImage_masked_pixels full {s})"),
     ("$v.reshape($_a, order='F')", "{v}"),
@@ -517,7 +683,7 @@ D_EXPR = [
     ("$v.ravel()", "{v}"),
     ("np.zeros($_a, dtype=$v.dtype)", "{v}"),
     ("np.array($a, copy=True, order='C', dtype=$a.dtype)", "{a}"),
-    ("np.array([$s.scale])", "{s}"),
+    ("np.array([$e])", "{e}"),
     ("np.array($_l)", "Dt.float64"),
     ("np.eye($_n)", "Dt.float64"),
     ("np.identity($_n)", "Dt.float64"),
@@ -531,7 +697,7 @@ D_EXPR = [
     ("$s.points", "{s}"),
     ("$s.h_matrix", "{s}"),
     ("$s._h_matrix", "{s}"),
-    ("$s.scale", "(NonUniformScale_scale {s})"),
+    ("$s.scale", "{s}"),
     ("$v[$_i]", "{v}"),
     ("Image($d, copy=$_c)", "{d}"),
     ("MaskedImage($d, mask=$_m)", "{d}"),
@@ -581,7 +747,7 @@ def d_items():
         def thunk(c=cls, n=name, a=args, r=rules, u=unused):
             fn = _fn(c, n) if isinstance(c, type) else c
             node, _src = P.source_ast(fn)
-            node = _Guards().visit(node)
+            node = _Guards().visit(_inline_self_aliases(_Normalise().visit(node)))
             ast.fix_missing_locations(node)
             return T5D(r).function_node(node, a, ind=1, allow_unused=u)
         out.append((sig, thunk, "some Dt.other"))
